@@ -85,3 +85,16 @@ pub fn sym_b() -> String { String::new() }
 #[derive(TS)] #[ts(tag = "t-g", content = "c t")] pub enum K5<T> { A(T), #[ts(rename = "b-b")] B { #[ts(rename = "y-y")] y: T } }
 #[derive(TS)] pub struct K6<T> { pub r#type: T, pub r#struct: i32, #[ts(type = "boolean")] pub r#fn: i32 }
 #[derive(TS)] #[ts(tag = "ki-nd")] pub struct K7<T> { #[ts(rename = "va-l")] pub v: T }
+#[derive(TS)] #[doc = "cdoc"] pub struct DD1<T> { #[doc = "da"] #[ts(rename = "a-b")] pub a: T, #[doc = "db"] #[ts(type = "string")] pub b: i32, #[doc = "dc"] #[ts(optional)] pub c: Option<T>, #[doc = "dd"] #[ts(inline)] pub d: Inner<T>, #[doc = "de"] #[ts(flatten)] pub e: Inner<T>, #[doc = "df"] pub r#type: T }
+#[derive(TS)] pub struct DN1<T> { #[ts(rename = "a-b")] pub a: T, #[ts(type = "string")] pub b: i32, #[ts(optional)] pub c: Option<T>, #[ts(inline)] pub d: Inner<T>, #[ts(flatten)] pub e: Inner<T>, pub r#type: T }
+#[derive(TS)] #[doc = "cdoc"] pub enum DD2<T> { #[doc = "va"] A(T), #[doc = "vb"] B { #[doc = "fa"] x: T, #[doc = "fb"] #[ts(rename = "y-y")] y: T }, #[doc = "vc"] C }
+#[derive(TS)] pub enum DN2<T> { A(T), B { x: T, #[ts(rename = "y-y")] y: T }, C }
+#[derive(TS)] #[ts(tag = "t")] #[doc = "cdoc"] pub enum DD3<T> { #[doc = "va"] A { #[doc = "fa"] x: T }, #[doc = "vb"] B }
+#[derive(TS)] #[ts(tag = "t")] pub enum DN3<T> { A { x: T }, B }
+#[derive(TS)] #[doc = "cdoc"] pub struct DD4<T>(#[doc = "ta"] pub T, #[doc = "tb"] pub Vec<T>);
+#[derive(TS)] pub struct DN4<T>(pub T, pub Vec<T>);
+#[derive(TS)] #[ts(rename_all = "UPPERCASE")] pub struct RN1<T> { #[ts(rename = "keep")] pub a: T, pub bb: T, pub r#type: T }
+#[derive(TS)] #[ts(rename_all = "lowercase")] pub enum RN2<T> { #[ts(rename = "Keep")] A(T), Bb { cc_dd: T }, CcDd }
+#[derive(TS)] #[ts(rename_all = "camelCase", rename_all_fields = "UPPERCASE")] pub enum RN3<T> { FooBar { baz_qux: T }, #[ts(rename_all = "kebab-case")] QuuxCorge { grault_x: T, #[ts(rename = "own")] y: T } }
+#[derive(TS)] #[ts(rename_all = "SCREAMING_SNAKE_CASE", tag = "kind")] pub enum RN4<T> { HttpServer { port_no: T }, V2Beta, #[ts(skip)] Hidden }
+#[derive(TS)] #[ts(rename_all = "kebab-case")] pub struct RN5<T> { pub http_server2: T, pub _lead: T, pub trail_: T, pub a: T }
